@@ -1,5 +1,5 @@
 use crate::distributions::*;
-use crate::functions::gamma;
+use crate::functions::ln_gamma;
 
 /// Implements the [Chi square](https://en.wikipedia.org/wiki/Chi-square_distribution) distribution.
 #[derive(Debug, Clone, Copy)]
@@ -61,7 +61,8 @@ impl Continuous for ChiSquared {
             return 0.;
         }
         let half_k = (self.dof as f64) / 2.;
-        1. / (2_f64.powf(half_k) * gamma(half_k)) * x.powf(half_k - 1.) * (-x / 2.).exp()
+        // evaluated in log space: the power and the exponential overflow and underflow separately
+        (xlogy(half_k - 1., x) - x / 2. - half_k * 2_f64.ln() - ln_gamma(half_k)).exp()
     }
 }
 
